@@ -13,7 +13,7 @@ LEVEL = "exploration"
 RULE = (
     "Semantic maps in 1-3-D (free voxel labelling with 1-4 semantic labels so that diagonal-only contacts and "
     "different-label adjacency are frequent; boxes), label values from classes {1..5, 250..255, 256..300, 65530..65535, "
-    "65536..70000}, signed and unsigned dtypes wide enough, backend in {default, cc3d, scipy}; plus maps of 0-513 isolated "
+    "65536..70000}, signed and unsigned dtypes wide enough, backend in {default, cc3d, scipy}, the approximator object optionally used first on a probe of another dimensionality; plus maps of 0-513 isolated "
     "single-voxel components under one small semantic label (component counts around 2^8, where the output dtype is decided). Exhaustive: all 3x3 maps "
     "over {0,1,2} and all 2x2x2 maps over {0,1,2}, each under the three backends. Oracle: partition of the foreground "
     "computed by breadth-first flood fill under the documented connectivity (scipy: face, label-blind; cc3d: full, equal "
@@ -43,6 +43,8 @@ def case_strategy(draw):
         "dtype": dtype,
         "backend": draw(st.sampled_from([None, "cc3d", "scipy"])),
         "layout": draw(st.sampled_from(["C", "C", "F", "neg"])),
+        # the same approximator object is first used on a probe of another dimensionality
+        "prime": draw(st.sampled_from([None, None, "1d", "2d", "3d"])),
     }
 
 
@@ -143,9 +145,16 @@ def check(case, stats):
         mx = max(case["n_pred"], case["n_ref"])
         classes.append("components>255" if mx > 255 else "components<=255")
         differs = differs or mx > 255  # the dtype boundary is the interesting region here
+    if case.get("prime"):
+        classes.append(f"primed_with_{case['prime']}")
     stats.record(case, differs, classes)
     pc, rc = pred.copy(), ref.copy()
-    out = H.lib_call(lambda: lib.approximator(bk).approximate_instances(SemanticPair(pred, ref)))
+    approx = lib.approximator(bk)
+    prime = case.get("prime")
+    if prime:
+        probe = {"1d": np.array([1, 0, 1], dtype=np.uint8), "2d": np.eye(3, dtype=np.uint8), "3d": np.eye(2, dtype=np.uint8)[None].repeat(2, 0)}[prime]
+        H.lib_call(lambda: approx.approximate_instances(SemanticPair(probe.copy(), probe.copy())))
+    out = H.lib_call(lambda: approx.approximate_instances(SemanticPair(pred, ref)))
     _check_side("prediction", np.asarray(out.prediction_arr), out.n_prediction_instance, pc, eff)
     _check_side("reference", np.asarray(out.reference_arr), out.n_reference_instance, rc, eff)
     if not (np.array_equal(pred, pc) and np.array_equal(ref, rc)):
